@@ -253,6 +253,24 @@ def ref_ed(s1, s2, dist=sq, result=_sqrt):
     return result(t)
 
 
+def ref_lb_keogh(s1, s2, window=None, dist=sq, result=_sqrt):
+    """LB_Keogh of s1 against the envelope of s2 over the DTW band of the two lengths (univariate)"""
+    r, c = len(s1), len(s2)
+    w = max(r, c) if window is None else window
+    t = 0.0
+    for i in range(r):
+        lo, hi = band(i, r, c, w)
+        seg = s2[lo:hi]
+        if not seg:
+            continue
+        u, l = max(seg), min(seg)
+        if s1[i] > u:
+            t += dist(s1[i], u)
+        elif s1[i] < l:
+            t += dist(s1[i], l)
+    return result(t)
+
+
 # --------------------------------------------------------------------- helpers
 def close(a, b, rel=1e-9, abs_=1e-12):
     if a == b:
